@@ -633,3 +633,74 @@ B('d9_b_dispatch_early_returns_fallback_only_when_debug', ['C09'], 'R09.b',
   (A, _DISPATCH_ERR_TAIL, _DISPATCH_EARLY.replace("            return default_render_error(**error_params)\n",
                                                   "            if getattr(self, 'debug', False):\n                return default_render_error(**error_params)\n"
                                                   "            return ret\n")))
+
+# ------------------------------------------------------------------ round g: base / override agreement on the keys of to_dict()
+# (R09.e: a key an override deletes / reads by subscript / pops without default from super().to_dict() is stored by the base on every path)
+_ISE_STORE = "        ret['exc_info'] = glom(self, T.exc_info.to_dict(), skip_exc=Exception)\n"
+_CISE_DEL = "        del ret['exc_info']\n"
+_ISE_COND = ("        exc_info = glom(self, T.exc_info.to_dict(), skip_exc=Exception)\n"
+             "        if exc_info is not None:\n            ret['exc_info'] = exc_info\n")
+B('g9_b_base_stores_key_conditionally_override_deletes', ['C09'], 'R09.e', (E, _ISE_STORE, _ISE_COND))
+B('g9_b_base_early_return_before_store', ['C09'], 'R09.e',
+  (E, _ISE_STORE, "        if getattr(self, 'exc_info', None) is None:\n            return ret\n" + _ISE_STORE))
+B('g9_b_base_drops_key_override_deletes', ['C09'], 'R09.e', (E, _ISE_STORE, ""))
+B('g9_b_base_conditional_override_pops_without_default', ['C09'], 'R09.e', (E, _ISE_STORE, _ISE_COND), (E, _CISE_DEL, "        ret.pop('exc_info')\n"))
+B('g9_b_base_conditional_override_reads_by_subscript', ['C09'], 'R09.e',
+  (E, _ISE_STORE, _ISE_COND), (E, _CISE_DEL, "        summary = ret['exc_info']\n        ret['exc_summary'] = summary\n"))
+B('g9_b_base_merge_conditional_override_deletes', ['C09'], 'R09.e',
+  (E, _ISE_TO_DICT, "        ret = super(InternalServerError, self).to_dict()\n"
+                    "        exc_info = glom(self, T.exc_info.to_dict(), skip_exc=Exception)\n"
+                    "        if exc_info is None:\n            return ret\n"
+                    "        return dict(ret, exc_info=exc_info)\n"))
+B('g9_b_base_pops_own_key_again', ['C09'], 'R09.e',
+  (E, _ISE_STORE, _ISE_STORE + "        if ret['exc_info'] is None:\n            ret.pop('exc_info')\n"))
+T('g9_t_base_conditional_override_pops_with_default', ['C09'], (E, _ISE_STORE, _ISE_COND), (E, _CISE_DEL, "        ret.pop('exc_info', None)\n"))
+T('g9_t_base_conditional_override_deletes_under_membership', ['C09'],
+  (E, _ISE_STORE, _ISE_COND), (E, _CISE_DEL, "        if 'exc_info' in ret:\n            del ret['exc_info']\n"))
+T('g9_t_base_conditional_override_deletes_in_try', ['C09'],
+  (E, _ISE_STORE, _ISE_COND), (E, _CISE_DEL, "        try:\n            del ret['exc_info']\n        except KeyError:\n            pass\n"))
+T('g9_t_base_merge_override_deletes', ['C09'],
+  (E, _ISE_TO_DICT, "        return dict(super(InternalServerError, self).to_dict(),\n"
+                    "                    exc_info=glom(self, T.exc_info.to_dict(), skip_exc=Exception))\n"))
+T('g9_t_base_display_merge_override_pops', ['C09'],
+  (E, _ISE_TO_DICT, "        return {**super(InternalServerError, self).to_dict(),\n"
+                    "                'exc_info': glom(self, T.exc_info.to_dict(), skip_exc=Exception)}\n"),
+  (E, _CISE_DEL, "        ret.pop('exc_info')\n"))
+T('g9_t_base_store_in_both_arms', ['C09'],
+  (E, _ISE_STORE, "        if getattr(self, 'exc_info', None) is None:\n            ret['exc_info'] = None\n        else:\n    " + _ISE_STORE))
+T('g9_t_base_update_keyword_override_deletes', ['C09'],
+  (E, _ISE_STORE, "        ret.update(exc_info=glom(self, T.exc_info.to_dict(), skip_exc=Exception))\n"))
+
+# ------------------------------------------------------------------ round g: no error leaves dispatch unrendered (R09.b), whichever way the loop ends
+_LOOP_TAIL = ("            if not isinstance(ret, HTTPException):\n                # TODO: verify behavior\n                break\n"
+              "            if not getattr(ret, 'source_route', None):\n                ret.source_route = route\n"
+              "            if getattr(ret, 'is_breaking', True):\n                break\n            else:\n"
+              "                dispatch_state.add_exception(ret)\n\n")
+_RENDER_IN_LOOP = ("                error_params = dict(params, _error=ret)\n                try:\n"
+                   "                    return ret.source_route.execute_error(**error_params)\n                except Exception:\n"
+                   "                    return default_render_error(**error_params)\n")
+_LOOP_TAIL_RENDERS_BREAKING = ("            if not isinstance(ret, HTTPException):\n                return ret\n"
+                               "            if not getattr(ret, 'source_route', None):\n                ret.source_route = route\n"
+                               "            if getattr(ret, 'is_breaking', True):\n" + _RENDER_IN_LOOP +
+                               "            dispatch_state.add_exception(ret)\n\n")
+B('g9_b_dispatch_renders_breaking_errors_only_in_loop', ['C09'], 'R09.b',
+  (A, _LOOP_TAIL + _DISPATCH_ERR_TAIL, _LOOP_TAIL_RENDERS_BREAKING + "        return ret\n"))
+B('g9_b_dispatch_tail_renders_breaking_errors_only', ['C09'], 'R09.b',
+  (A, "        if isinstance(ret, HTTPException):\n            error_params", "        if isinstance(ret, HTTPException) and getattr(ret, 'is_breaking', True):\n            error_params"))
+B('g9_b_dispatch_tail_hands_client_errors_back', ['C09'], 'R09.b',
+  (A, "        if isinstance(ret, HTTPException):\n            error_params",
+      "        if isinstance(ret, HTTPException):\n            if not getattr(ret, 'is_breaking', True):\n                return ret\n            error_params"))
+B('g9_b_dispatch_loop_returns_error_of_branch_route', ['C09'], 'R09.b',
+  (A, "            if getattr(ret, 'is_breaking', True):\n                break\n",
+      "            if route.is_branch and self.debug:\n                return ret\n            if getattr(ret, 'is_breaking', True):\n                break\n"))
+B('g9_b_dispatch_error_rebound_after_the_test', ['C09'], 'R09.b',
+  (A, _DISPATCH_ERR_TAIL, _DISPATCH_EARLY.replace("            return ret\n", "            if dispatch_state.exceptions:\n"
+                                                  "                ret = dispatch_state.exceptions[-1]\n            return ret\n", 1)))
+T('g9_t_dispatch_breaking_rendered_in_loop_rest_after_it', ['C09'],
+  (A, _LOOP_TAIL + _DISPATCH_ERR_TAIL, _LOOP_TAIL_RENDERS_BREAKING + _DISPATCH_ERR_TAIL))
+T('g9_t_dispatch_error_test_named', ['C09'],
+  (A, "        if isinstance(ret, HTTPException):\n            error_params", "        is_error = isinstance(ret, HTTPException)\n        if is_error:\n            error_params"))
+T('g9_t_dispatch_tail_inverted', ['C09'],
+  (A, _DISPATCH_ERR_TAIL, "        if not isinstance(ret, HTTPException):\n            pass\n        else:\n            error_params = dict(params, _error=ret)\n" + _DISPATCH_ERR + "        return ret\n"))
+T('g9_t_dispatch_tail_tuple_of_classes', ['C09'],
+  (A, "        if isinstance(ret, HTTPException):\n            error_params", "        if isinstance(ret, (HTTPException,)):\n            error_params"))
